@@ -1,7 +1,10 @@
 package store
 
 import (
+	"bytes"
+
 	"github.com/canopy-network/canopy/lib"
+	"github.com/canopy-network/canopy/lib/crypto"
 )
 
 // C16: Merkle proofs of the sparse Merkle tree (store/smt.go).
@@ -41,3 +44,161 @@ func ZZ_C16_M1_malformed_proof_no_panic() {
 	_, _ = s.VerifyProof(k, v, membership, root, proof)
 	zzReach("M1.returned")
 }
+
+// ---------------------------------------------------------------------------------------------
+// Tree level. A real tree is built with the real NewSMT / Commit (set, traverse, rehash) over
+// the map store, with keyBitLength = `keybits` and an uninterpreted injective hash, so the leaf
+// positions of the user keys are arbitrary symbolic bit strings. Stated preconditions (they hold
+// with overwhelming probability at the production key length of 160 bits): the positions of
+// different user keys differ, and none equals the reserved root / minimum / maximum key.
+// ---------------------------------------------------------------------------------------------
+
+func zzUserKey(i int) []byte { return []byte{'k', byte('0' + i)} }
+func zzUserVal(i int) []byte { return []byte{'v', byte('0' + i)} }
+
+func zzPos(s *SMT, k []byte) *key { return newNodeKey(crypto.Hash(k), s.keyBitLength) }
+
+// zzTree: tree holding user keys 0..n-1 (present), with key n reserved as an absent key.
+func zzTree(n int) *SMT {
+	s := NewSMT(RootKey, zzParam("keybits", 4), &zzStore{})
+	var pos []*key
+	for i := 0; i <= n; i++ {
+		p := zzPos(s, zzUserKey(i))
+		zzAssume(s.validateTarget(&node{Key: p}) == nil)
+		for _, q := range pos {
+			zzAssume(!p.equals(q))
+		}
+		pos = append(pos, p)
+	}
+	ops := map[uint64]valueOp{}
+	for i := 0; i < n; i++ {
+		ops[uint64(i)] = valueOp{key: zzUserKey(i), value: zzUserVal(i), op: opSet}
+	}
+	if err := s.Commit(ops); err != nil {
+		zzAssert("tree.commit-succeeds", false)
+		zzStop()
+	}
+	return s
+}
+
+// M3 completeness at tree level: for every present key the honest proof verifies as membership
+// of (key, value) and for an absent key as non-membership, against the tree's own root; and the
+// same honest proofs do NOT verify the opposite statements (wrong value, wrong kind).
+//
+//zz:harness unwind=80 maxpaths=200000 timebudget=1500 panic=violation:M3.no-panic
+//zz:reach M3.done
+func ZZ_C16_M3_honest_proofs_verify() {
+	n := zzParam("leaves", 2)
+	s := zzTree(n)
+	root := s.Root()
+	for i := 0; i <= n; i++ {
+		k := zzUserKey(i)
+		proof, err := s.GetMerkleProof(k)
+		zzAssert("M3.proof-generated", err == nil)
+		if err != nil {
+			zzStop()
+		}
+		present := i < n
+		okM, errM := s.VerifyProof(k, zzUserVal(i), true, root, proof)
+		okN, errN := s.VerifyProof(k, zzUserVal(i), false, root, proof)
+		zzAssert("M3.no-error", errM == nil && errN == nil)
+		if present {
+			zzAssert("M3.present-key-verifies-as-member", okM)
+			zzAssert("M3.present-key-not-proved-absent", !okN)
+			okW, _ := s.VerifyProof(k, []byte{'w'}, true, root, proof)
+			zzAssert("M3.wrong-value-rejected", !okW)
+		} else {
+			zzAssert("M3.absent-key-verifies-as-non-member", okN)
+			zzAssert("M3.absent-key-not-proved-member", !okM)
+		}
+	}
+	zzReach("M3.done")
+}
+
+// M2a soundness against a foreign honest proof: the honest proof generated for key A, presented
+// for another key B, never proves the absence of a present B nor the membership of an absent B
+// (nor of a present B with another value).
+//
+//zz:harness unwind=80 maxpaths=200000 timebudget=1500 panic=violation:M2.no-panic
+//zz:reach M2a.done
+func ZZ_C16_M2a_foreign_honest_proof() {
+	n := zzParam("leaves", 2)
+	s := zzTree(n)
+	root := s.Root()
+	a := zzConcrete(zzInt("a"), 0, n)
+	b := zzConcrete(zzInt("b"), 0, n)
+	zzAssume(a != b)
+	proof, err := s.GetMerkleProof(zzUserKey(a))
+	if err != nil {
+		zzStop()
+	}
+	okN, _ := s.VerifyProof(zzUserKey(b), zzUserVal(b), false, root, proof)
+	okM, _ := s.VerifyProof(zzUserKey(b), zzUserVal(b), true, root, proof)
+	okW, _ := s.VerifyProof(zzUserKey(b), []byte{'w'}, true, root, proof)
+	if b < n {
+		zzAssert("M2.present-key-never-proved-absent", !okN)
+		zzAssert("M2.wrong-value-never-proved", !okW)
+	} else {
+		zzAssert("M2.absent-key-never-proved-member", !okM && !okW)
+	}
+	zzReach("M2a.done")
+}
+
+// M2b / M2c soundness against a fully adversarial proof: the tree and its root are real, the proof
+// is up to `proofnodes` nodes with arbitrary keys, values and bitmasks. Whatever the prover sends,
+// a present key is never proved absent, a present key is never proved to hold another value, and
+// an absent key is never proved present. Under the injective hash a forged chain can only reach
+// the real root by replaying real hash inputs - but a parent's value is
+// Hash(leftKey|leftValue|rightKey|rightValue) WITHOUT delimiters, so the split of one real input
+// into keys and values is not unique. The space of proofs is therefore cut in two:
+//   M2b  every value in the proof has the size the tree gives it (32-byte hash; 20 bytes exactly
+//        for the reserved minimum / maximum leaves). With node keys of <= 8 bits (2 bytes each) the
+//        split is then unique and the obligations must hold.
+//   M2c  some value has another size (20 bytes under an ordinary key, 32 under a reserved key):
+//        VerifyProof does not check value sizes, the boundary can be moved and a present key IS
+//        proved absent - known finding (known_findings.json, replay/c16_forged_proof_test.go).
+func zzAdversarialProof(sized bool) {
+	n := zzParam("leaves", 1)
+	s := zzTree(n)
+	root := s.Root()
+	b := zzConcrete(zzInt("b"), 0, n)
+	np := zzConcrete(zzInt("proofLen"), 2, zzParam("proofnodes", 2))
+	var proof []*lib.Node
+	allSized := true
+	for i := 0; i < np; i++ {
+		vlen := 20 + 12*zzConcrete(zzInt("v32"), 0, 1)
+		k := zzBytes("key", 2)
+		reserved := zzOr(bytes.Equal(k, s.minKey.bytes()), bytes.Equal(k, s.maxKey.bytes()))
+		allSized = zzAnd(allSized, reserved == (vlen == 20))
+		proof = append(proof, &lib.Node{Key: k, Value: zzBytes("val", vlen), Bitmask: int32(zzConcrete(zzInt("bitmask"), 0, 1))})
+	}
+	zzAssume(allSized == sized)
+	membership := zzBool("membership")
+	v := zzUserVal(b)
+	if zzBool("otherValue") {
+		v = []byte{'w'}
+	}
+	ok, _ := s.VerifyProof(zzUserKey(b), v, membership, root, proof)
+	tag := "M2b."
+	if !sized {
+		tag = "M2c.unsized-values."
+	}
+	if ok {
+		zzReach(tag + "accepted")
+		if b < n {
+			zzAssert(tag+"present-key-never-proved-absent", membership)
+			zzAssert(tag+"wrong-value-never-proved", v[0] == 'v')
+		} else {
+			zzAssert(tag+"absent-key-never-proved-member", !membership)
+		}
+	}
+	zzReach(tag + "done")
+}
+
+//zz:harness unwind=80 maxpaths=600000 timebudget=3000 panic=ignore param.proofnodes@thorough=3
+//zz:reach M2b.done M2b.accepted
+func ZZ_C16_M2b_adversarial_proof_sized_values() { zzAdversarialProof(true) }
+
+//zz:harness unwind=80 maxpaths=600000 timebudget=3000 panic=ignore param.proofnodes@thorough=3
+//zz:reach M2c.unsized-values.done M2c.unsized-values.accepted
+func ZZ_C16_M2c_adversarial_proof_unsized_values() { zzAdversarialProof(false) }
